@@ -272,6 +272,9 @@ def c01_oracle(c, T, r, all_defaults):
         if not vouched(name, T, all_defaults, module):
             fails.append(f"unvouched-resolution: load(trusted={T!r}) resolved {name!r}, which is neither in trusted nor default-trusted")
             break
+    for mm in r.get("mismatches") or []:
+        fails.append(f"resolved-other-object: the name that was audited is not the object that is used: {mm}")
+        break
     if r["outcome"] in ("untrusted",) and r["events"]:
         fails.append(f"events-after-refusal: load raised UntrustedTypesFoundException but had already resolved {r['events'][:3]}")
     for kind, what in r["ledger"]:
